@@ -454,11 +454,26 @@ def rule_commit_once(ctx) -> None:
     ctx.floor("C04.ONCE", "apply_changes invocation sites in sibling committers", n_sites, 1)
 
 
+def rule_snapshot_written(ctx) -> None:
+    """a cadence turn's snapshot is really written: every normal return of write_snapshot lies behind the atomic body write
+    (no 'already up to date' shortcut keyed on the version counter, which is not a content hash)"""
+    fn = ctx.func("clematis.engine.snapshot:write_snapshot")
+    cfg = ctx.cfg(fn)
+    writes = [n for n in cfg.nodes if any(call_tail(c) in ("atomic_write_text", "atomic_write_bytes", "atomic_write_json") for c in node_calls(n))]
+    ctx.floor("C04.CAD", "body write sites of write_snapshot", len(writes), 1)
+    # the body write: the first atomic write (the sidecar comes after it)
+    p = cfg.path([cfg.entry], lambda x: x is cfg.exit, avoid=lambda x: x in writes, edge_ok=no_exc)
+    ctx.check(p is None, "C04.CAD", f"{fn.qual}/every-return-behind-the-write", fn.loc(), "every normal return of write_snapshot follows the atomic body write",
+              "write_snapshot can return a snapshot path without writing the body: apply_changes reports a snapshot for the cadence turn while the file still holds another state "
+              "(the version etag is a counter, not a content hash)", ctx.path_witness(fn, p))
+
+
 def run(ctx) -> None:
     rule_once(ctx)
     rule_batch(ctx)
     rule_esc(ctx)
     rule_bust(ctx)
     rule_cad(ctx)
+    rule_snapshot_written(ctx)
     rule_kill(ctx)
     rule_commit_once(ctx)
